@@ -9,6 +9,7 @@ import (
 	"math/rand"
 	"strconv"
 	"strings"
+	"time"
 
 	"github.com/ipld/go-ipld-prime"
 	"github.com/ipld/go-ipld-prime/datamodel"
@@ -120,13 +121,28 @@ func selectReal(sel selector.Selector, n ipld.Node) (o outcome) {
 	return outcome{class: "value", node: res}
 }
 
+// parseReal: selector.Parse under panic recovery and a watchdog (a parser that does not return is reported like a panic).
 func parseReal(text string) (sel selector.Selector, err error) {
-	defer func() {
-		if r := recover(); r != nil {
-			err = fmt.Errorf("panic: %v", r)
-		}
+	type res struct {
+		sel selector.Selector
+		err error
+	}
+	ch := make(chan res, 1)
+	go func() {
+		defer func() {
+			if r := recover(); r != nil {
+				ch <- res{nil, fmt.Errorf("panic: %v", r)}
+			}
+		}()
+		s, e := selector.Parse(text)
+		ch <- res{s, e}
 	}()
-	return selector.Parse(text)
+	select {
+	case r := <-ch:
+		return r.sel, r.err
+	case <-time.After(10 * time.Second):
+		return nil, fmt.Errorf("panic: selector.Parse did not return within 10 s (the goroutine is abandoned)")
+	}
 }
 
 // agrees compares a real outcome with an expected Values.tla JSON outcome.
@@ -620,7 +636,17 @@ func init() {
 			if rng.Intn(20) == 0 {
 				text = ""
 			}
+			inner := []string{"a", "b", "?", "??", "???", ".", "[", "]", ":", "-", "0", " ", "é", "*", "\\", `\"`, "$", "[]", "[0]", "..", ".a?"}
 			for k := rng.Intn(7); k > 0; k-- {
+				if rng.Intn(5) == 0 {
+					// a quoted key with arbitrary content: everything between the quotes is the field name
+					q := `["`
+					for j := rng.Intn(4); j >= 0; j-- {
+						q += inner[rng.Intn(len(inner))]
+					}
+					text += q + `"]` + []string{"", "", "?", "??"}[rng.Intn(4)]
+					continue
+				}
 				text += atoms[rng.Intn(len(atoms))]
 			}
 			sel, err := parseReal(text)
